@@ -14,7 +14,7 @@ def denotes(key, now):
     is strictly later than `now`; anything else denotes itself (contracts compare by class and symbol)"""
     if isinstance(key, FutureChain):
         live = [c for c in key.contracts if c.last_trading_date > now]
-        return live[0].symbol
+        return live[key._month].symbol                # the chain's month offset: the k-th contract behind the front one
     if isinstance(key, str):
         return key                                   # a string key addresses the book of the contract carrying that symbol
     return key.symbol
@@ -24,7 +24,8 @@ def run(seed, n_ops):
     r = random.Random(seed)
     chain = FutureChain(ES, "2019-03", "2019-12")
     chain2 = FutureChain(ES, "2019-03", "2019-12")            # a second instance of the same chain: must address the same books
-    keys = [ETF("SPY"), ETF("IEF"), chain, chain2] + list(chain.contracts)
+    chain_next = FutureChain(ES, "2019-03", "2020-03", month=1)  # the contract behind the front one
+    keys = [ETF("SPY"), ETF("IEF"), chain, chain2, chain_next] + list(chain.contracts)
     queries = keys + ["SPY", chain.contracts[1].symbol, "never-quoted"]
     ltds = [c.last_trading_date for c in chain.contracts]
     clocks = [datetime(2019, 1, 15)] + [l + timedelta(seconds=s) for l in ltds[:-1] for s in (-1, 0, 1)] + [ltds[-1] - timedelta(days=3)]
@@ -76,7 +77,7 @@ def run(seed, n_ops):
 
 def order_book(tier, seed):
     acc = Acc("random interleavings of {quote, discontinuation, clock move (forwards / backwards across every roll instant -1s/0/+1s), query} "
-              "over 2 ETFs, two instances of an ES chain and its 4 contracts; after every operation every key (and three string keys) is queried and "
+              "over 2 ETFs, two instances of an ES chain, a chain with month offset 1, and the 4 contracts; after every operation every key (and three string keys) is queried and "
               "compared (bid, ask, alive, history, execution prices) with a reference book keyed by the contract the key denotes at that "
               "clock; non-trivial = distinct seed", "120 operations per sequence")
     for k in range(12 if tier == "quick" else 80):
